@@ -95,43 +95,59 @@ def _grid_args(call):
             ast.unparse(num) if num is not None else None, ep)
 
 
+def _owner_grid(call):
+    """(owner, start, stop, num, endpoint) if the call is np.linspace(X.start, X.stop, …) for one name X"""
+    s, e, n, ep = _grid_args(call)
+    if s and s.endswith(".start") and e and e.endswith(".stop") and s[:-6] == e[:-5]:
+        return s[:-6], s, e, n, ep
+    if s and s.endswith(".start"):
+        return s[:-6], s, e, n, ep
+    return None
+
+
 def check_grid(project: Project, rep):
     sites = [
-        (f"{AP}.compute_landscape", "self", None),
-        (f"{AP}.values_to_pairs", "self", None),
-        ("persim.landscapes.tools.snap_pl", "pl", "source"),
-        ("persim.landscapes.visuals.plot_landscape_approx", "landscape", "source"),
-        ("persim.landscapes.visuals.plot_landscape_approx_simple", "landscape", None),
+        (f"{AP}.compute_landscape", None),
+        (f"{AP}.values_to_pairs", None),
+        ("persim.landscapes.tools.snap_pl", "source"),
+        ("persim.landscapes.visuals.plot_landscape_approx", "source"),
+        ("persim.landscapes.visuals.plot_landscape_approx_simple", None),
     ]
-    for q, owner, role in sites:
+    for q, role in sites:
         fi = project.function(q)
         rep.analysed(fi)
-        calls = _linspace_calls(project, fi)
-        mine = [c for c in calls if _grid_args(c)[0] == f"{owner}.start"]
+        calls = [(c, _owner_grid(c)) for c in _linspace_calls(project, fi)]
+        mine = [(c, g) for c, g in calls if g is not None]
         if role == "source":
-            mine = [c for c in mine if _grid_args(c)[2] == f"{owner}.num_steps"] or mine
+            pref = [(c, g) for c, g in mine if g[3] == f"{g[0]}.num_steps"]
+            mine = pref or mine
         if not mine:
             rep.refuted("GL-GRID", fi, fi.node, f"{q.rsplit('.', 1)[1]} no longer rebuilds the landscape's grid with "
-                                                f"np.linspace({owner}.start, {owner}.stop, {owner}.num_steps)",
+                                                f"np.linspace(<landscape>.start, <landscape>.stop, <landscape>.num_steps)",
                         construct=f"{q}: grid reconstruction")
             continue
-        for c in mine[:1]:
-            s, e, n, ep = _grid_args(c)
-            num_ok = n == f"{owner}.num_steps" or (q.endswith("approx_simple") and n == "len(l)")
-            ep_ok = ep is None or (isinstance(ep, ast.Constant) and ep.value is True)
-            if s == f"{owner}.start" and e == f"{owner}.stop" and num_ok and ep_ok:
-                rep.discharged("GL-GRID", fi, c, f"grid = np.linspace({s}, {e}, {n}) with the default end-point convention")
-            else:
-                why = []
-                if e != f"{owner}.stop":
-                    why.append(f"stop is {e}")
-                if not num_ok:
-                    why.append(f"number of nodes is {n}")
-                if not ep_ok:
-                    why.append("endpoint=False")
-                rep.refuted("GL-GRID", fi, c, f"the grid paired with the sampled values is np.linspace({s}, {e}, {n}"
-                                              f"{', endpoint=False' if not ep_ok else ''}): " + ", ".join(why) +
-                            " — it differs from the grid the values were sampled on")
+        c, (owner, s, e, n, ep) = mine[0]
+        # in the simple approximate plot the number of nodes is the length of the row being plotted
+        row_len = False
+        if q.endswith("approx_simple") and n and n.startswith("len(") and n.endswith(")"):
+            v = n[4:-1]
+            row_len = any(isinstance(x, ast.Call) and isinstance(x.func, ast.Attribute) and x.func.attr == "plot"
+                          and len(x.args) >= 2 and ast.unparse(x.args[1]) == v for x in ast.walk(fi.node))
+        num_ok = n == f"{owner}.num_steps" or row_len
+        ep_ok = ep is None or (isinstance(ep, ast.Constant) and ep.value is True)
+        if e == f"{owner}.stop" and num_ok and ep_ok:
+            rep.discharged("GL-GRID", fi, c, f"grid = np.linspace({s}, {e}, {n}) with the default end-point convention")
+        else:
+            why = []
+            if e != f"{owner}.stop":
+                why.append(f"stop is {e}")
+            if not num_ok:
+                why.append(f"number of nodes is {n}")
+            if not ep_ok:
+                why.append("endpoint=False")
+            rep.refuted("GL-GRID", fi, c, f"the grid paired with the sampled values is np.linspace({s}, {e}, {n}"
+                                          f"{', endpoint=False' if not ep_ok else ''}): " + ", ".join(why) +
+                        " — it differs from the grid the values were sampled on")
     # target grids of snap_pl / vectorize use the requested parameters
     for q in ("persim.landscapes.tools.snap_pl", "persim.landscapes.tools.vectorize"):
         fi = project.function(q)
